@@ -71,6 +71,7 @@ func (r *recUDP) full() bool {
 	}
 	return false
 }
+
 type recUDPConn struct {
 	r  *recUDP
 	id int
